@@ -1,3 +1,16 @@
+//! vh-status — C22 (status subscriptions), C23 (status cache), C44 (delegated
+//! preconfirmations) on the real `fuel-core-tx-status-manager`.
+mod c22;
+mod c23;
+mod c44;
+mod common;
+
 fn main() {
-    mcx::machinery_failure("not built yet");
+    let cli = mcx::Cli::parse();
+    match cli.property.as_str() {
+        "C22" => c22::run(&cli),
+        "C23" => c23::run(&cli),
+        "C44" => c44::run(&cli),
+        other => mcx::machinery_failure(&format!("vh-status does not serve {other}")),
+    }
 }
